@@ -190,9 +190,9 @@ def raw_mutex_ops(f):
     return out
 
 
-def raii_only(ctx, rid, files):
+def raii_only(ctx, rid, files, floor=20):
     ctx.rule(rid, "no raw mutex lock()/unlock()/try_lock(), adopt_lock or lock.release(): every acquisition "
-             "is an RAII object and is therefore released on every exit, including unwinding", floor=20)
+             "is an RAII object and is therefore released on every exit, including unwinding", floor=floor)
     fxb, _ = ctx.fx
     hit = False
     for f in fxb.functions():
@@ -651,3 +651,43 @@ def try_paths_nonblocking(ctx, rid, classes):
                         viol.append("%s blocks on %s at %s" % (g.name, node, g.loc(st)))
             ctx.ob(rid, not viol, f.where, "%s::%s cannot wait for the object's mutex" % (cls.split("::")[-1], f.name),
                    "; ".join(viol[:3]), fn=f.label, inst=f.qname)
+
+
+# ----------------------------------------------------- rcu_list writer guard
+RCU = "gmlc::libguarded::rcu_list"
+
+
+def rcu_writer_guard(ctx, rid, floor=20):
+    """every store to m_head / m_tail / node::next / node::back and every access
+    to node::deleted in rcu_list's member functions happens with m_write_mutex
+    held by a blocking RAII lock (mutations take effect one at a time; the
+    deleted test-and-set is atomic, so a node gets exactly one log record)"""
+    from .engine import atomic_ops
+    ctx.rule(rid, "all mutations of the list structure (m_head, m_tail, node::next/back, node::deleted) and the "
+             "test of node::deleted happen with m_write_mutex held", floor=floor)
+    fb, eng = ctx.fb, ctx.eng
+    n = 0
+    for f in fb.functions(rec=RCU):
+        if f.kind in ("ctor", "dtor"):
+            continue
+        la = eng.locks(f)
+        for op in atomic_ops(f):
+            if op["op"] not in ("store", "rmw", "cas"):
+                continue
+            if not re.search(r"::node \*>$", op["objtype"]):
+                continue
+            pos = f.pos_of(op["st"])
+            ok = pos is not None and la.holds(pos, "this.m_write_mutex", "X")
+            ctx.ob(rid, ok, f.loc(op["st"]), "%s of %s under m_write_mutex" % (op["name"], op["obj"]),
+                   "" if ok else "write mutex not held here", fn=f.label, inst=f.qname)
+            n += 1
+        for st in f.stmts.values():
+            if st["k"] == "MemberExpr" and st["m"].get("is_field") and st["m"]["name"] == "deleted" and \
+                    st["m"].get("rec") == RCU + "::node":
+                pos = f.pos_of(st)
+                ok = pos is not None and la.holds(pos, "this.m_write_mutex", "X")
+                ctx.ob(rid, ok, f.loc(st), "node::deleted is tested and set under m_write_mutex",
+                       "" if ok else "write mutex not held here (check-then-lock: two erasers can both pass)",
+                       fn=f.label, inst=f.qname)
+                n += 1
+    return n
